@@ -451,6 +451,36 @@ func c17prop(ev *evid.Rec) func(rt *rapid.T) {
 					synced()
 					checkFile("after ban-list add")
 				},
+				"banWhileConnectionIdles": func(rt *rapid.T) {
+					// a peer has opened its connection and sent nothing yet; its address is banned; then it sends handshake and
+					// login.  The ban in force when the handshake is done decides.
+					ip := rapid.SampledFrom(c17Addrs).Draw(rt, "ip")
+					if unsure[ip] || blocked {
+						rt.Skip()
+					}
+					perm := rapid.Bool().Draw(rt, "perm")
+					port++
+					rec("connection from %s opened, then its address is banned (perm=%v), then it sends handshake and login", ip, perm)
+					c := w.Connect(fmt.Sprintf("%s:%d", ip, port))
+					settle(time.Second)
+					if perm {
+						must(w.Srv.BanList.Add(ip, nil))
+						bans[ip] = banEntry{perm: true}
+					} else {
+						until := time.Now().Add(30 * time.Minute)
+						must(w.Srv.BanList.Add(ip, &until))
+						bans[ip] = banEntry{expiry: until}
+					}
+					synced()
+					c.SendParts([][]byte{hlref.Handshake(1, 2), hlref.Tran{Type: hlref.TranLogin, ID: 77, Fields: hlsim.LoginOpts{Login: "u0", Password: "pw", Name: []byte("visitor"), Icon: 1}.Fields()}.Encode()})
+					settle(2 * time.Second)
+					c.Take(8)
+					got := c.TakeInbox()
+					if len(got) != 1 || got[0].Type != hlref.TranServerMsg || got[0].IsReply != 0 || !c.EOF() {
+						fail("a connection from %s was open and silent when the address was banned; after its handshake and login it received %s (closed: %v) instead of the ban notice and the end of the connection", ip, tranSummary(got), c.EOF())
+					}
+					nt = true
+				},
 				"operatorUnban": func(rt *rapid.T) {
 					// the operator removes an entry from the ban file by hand and has the server reload it: the address is
 					// no longer banned (what the server held in memory before does not matter any more)
